@@ -127,7 +127,7 @@ def property_theorems(prop_module: str) -> list:
   """Names of the theorems declared in Properties/<prop_module>.lean."""
   p = os.path.join(LEAN, 'FiddleModel', 'Properties', prop_module + '.lean')
   src = _strip_comments(open(p).read())
-  return re.findall(r'^\s*theorem\s+([A-Za-z0-9_.\']+)', src, flags=re.M)
+  return re.findall(r'^\s*theorem\s+([A-Za-z0-9_.\'?!]+)', src, flags=re.M)
 
 
 def audit_axioms(prop_module: str) -> dict:
